@@ -17,48 +17,10 @@
 
 From Coq Require Import List NArith Bool Lia.
 From BS Require Import Codec.Schema Codec.SchemaProofs Codec.Lz4 Codec.Lz4Proofs
-  Codec.CodecTypes Codec.MeshCodec.
+  Codec.CodecTypes Codec.CodecLemmas Codec.MeshCodec.
 From BSGen Require Import MeshLayout.
 Import ListNotations.
 Local Open Scope N_scope.
-
-(* ---------------------------------------------------------------------- *)
-(*  Generic list helpers of CodecTypes                                     *)
-(* ---------------------------------------------------------------------- *)
-
-Lemma rev_append_rev' {A} (l acc : list A) : rev_append l acc = rev l ++ acc.
-Proof. apply rev_append_rev. Qed.
-
-Lemma rev_map_acc_spec {A B} (f : A -> B) l : forall acc,
-  rev_map_acc f l acc = rev (map f l) ++ acc.
-Proof.
-  induction l as [|x l IH]; intro acc; cbn [rev_map_acc map rev]; [reflexivity|].
-  rewrite IH, <- app_assoc. reflexivity.
-Qed.
-
-Lemma tmap_eq {A B} (f : A -> B) l : tmap f l = map f l.
-Proof.
-  unfold tmap. rewrite rev_append_rev', rev_map_acc_spec, !app_nil_r. apply rev_involutive.
-Qed.
-
-Lemma omap_acc_map {A B} (f : B -> option A) (g : A -> B) :
-  forall l, Forall (fun x => f (g x) = Some x) l ->
-  forall acc, omap_acc f (map g l) acc = Some (rev acc ++ l).
-Proof.
-  induction 1 as [|x l Hx _ IH]; intro acc; cbn [map omap_acc].
-  - rewrite rev_append_rev', !app_nil_r. reflexivity.
-  - rewrite Hx, IH. cbn [rev]. rewrite <- app_assoc. reflexivity.
-Qed.
-
-Lemma omap_map {A B} (f : B -> option A) (g : A -> B) l :
-  (forall x, f (g x) = Some x) -> omap f (map g l) = Some l.
-Proof.
-  intro H. unfold omap. rewrite omap_acc_map; [reflexivity|].
-  apply Forall_forall; auto.
-Qed.
-
-Lemma last_some_single {A} (o : option A) : last_some [o] = o.
-Proof. destruct o; reflexivity. Qed.
 
 (* ---------------------------------------------------------------------- *)
 (*  Decidable equalities of the name enumerations                          *)
@@ -99,19 +61,9 @@ Proof. rewrite tmap_eq. cbn [names_of_val]. apply omap_map; reflexivity. Qed.
 Definition env_of (m : mesh) : env :=
   combine (map fst meshdata_fields) (map (fun ft => field_val m (fst ft)) meshdata_fields).
 
-Lemma assoc_combine_map {V} (g : mfield -> V) f : forall (fields : list (mfield * ty)),
-  In f (map fst fields) ->
-  assoc mfield_eqb f (combine (map fst fields) (map (fun ft => g (fst ft)) fields)) = Some (g f).
-Proof.
-  induction fields as [|[f' t] fields IH]; cbn [map fst combine assoc In]; [tauto|].
-  intro H. destruct (mfield_eqb f f') eqn:E.
-  - apply mfield_eqb_eq in E. subst; reflexivity.
-  - destruct H as [->|H]; [rewrite mfield_eqb_refl in E; discriminate|auto].
-Qed.
-
 Lemma get_field_env m f :
   In f (map fst meshdata_fields) -> get_field (env_of m) f = Some (field_val m f).
-Proof. apply assoc_combine_map. Qed.
+Proof. apply (assoc_combine_map mfield_eqb mfield_eqb_eq). Qed.
 
 Lemma part_single {A} (conv : val -> option A) e src f r :
   fields_targeting src = [f] -> opt_field conv e f = Some r -> part conv e src = Some r.
@@ -233,19 +185,8 @@ Proof. exact (decode_inverts_encode m). Qed.
 (*  Well-formed meshes are encodable                                       *)
 (* ---------------------------------------------------------------------- *)
 
-Lemma forallb_map_true {A B} (p : B -> bool) (f : A -> B) l :
-  Forall (fun x => p (f x) = true) l -> forallb p (map f l) = true.
-Proof. induction 1; cbn [map forallb]; [reflexivity|]. rewrite H, IHForall. reflexivity. Qed.
 
-Lemma len_ok_lt n : n < 2 ^ 64 -> len_ok n = true.
-Proof. intro H. unfold len_ok. apply N.ltb_lt. exact H. Qed.
 
-Lemma wt_ints w l :
-  Forall (fun x => x < 2 ^ (8 * N.of_nat w)) l -> forallb (wt (TInt w)) (map VInt l) = true.
-Proof.
-  intro H. apply forallb_map_true. eapply Forall_impl; [|exact H].
-  intros x Hx. cbn [wt]. unfold fits. apply N.ltb_lt. exact Hx.
-Qed.
 
 Lemma wt_vec k w v : vec_ok k w v -> wt (TArr k (TInt w)) (val_of_vec v) = true.
 Proof.
@@ -278,13 +219,10 @@ Proof.
   cbn [andb]. apply (wt_ints 2). exact F.
 Qed.
 
-Lemma forallb_byte_ok_lt b : Forall (fun x => x < 256) b -> forallb byte_ok b = true.
-Proof. intro H. apply forallb_byte_ok. exact H. Qed.
+
 
 Lemma wt_bytes b : bytes_ok b -> wt TBytes (VBytes b) = true.
-Proof.
-  intros [L F]. cbn [wt]. rewrite (len_ok_lt _ L), (forallb_byte_ok_lt _ F). reflexivity.
-Qed.
+Proof. intros [L F]. apply wt_bytes_lt; assumption. Qed.
 
 (* serde layout of AssetId<Image> (bevy_asset 0.14) *)
 Definition asset_id_ty : ty := TEnum [TTuple [TTuple [TInt 4; TInt 4]; TUnit]; TTuple [TBytes]].
@@ -316,13 +254,6 @@ Proof.
   cbn [wt]. unfold fits. apply N.ltb_lt. exact (proj2 (topo_tables_inverse t)).
 Qed.
 
-Lemma wt_fields_map {K} (g : K -> val) : forall (fields : list (K * ty)),
-  Forall (fun ft => wt (snd ft) (g (fst ft)) = true) fields ->
-  wt_fields wt (map snd fields) (map (fun ft => g (fst ft)) fields) = true.
-Proof.
-  induction 1 as [|[f t] fields H _ IH]; cbn [map wt_fields fst snd] in *; [reflexivity|].
-  rewrite H, IH. reflexivity.
-Qed.
 
 (* every field of MeshData has the wire type of the part of the mesh it is initialised from
    (and the attribute fields have the vertex format Bevy fixes for their attribute) *)
@@ -335,7 +266,7 @@ Proof.
       let s := eval vm_compute in (field_source f) in change (field_source f) with s
     end; cbv iota beta;
     first [ apply wt_topo
-          | eapply wt_attr; [reflexivity | apply HA]
+          | eapply wt_attr; cycle 1; [apply HA | reflexivity]
           | apply wt_indices32; exact HI
           | apply wt_indices16; exact HI
           | apply wt_morph; exact HM
@@ -397,6 +328,53 @@ Proof.
 Qed.
 
 (* ---------------------------------------------------------------------- *)
+(*  Source ties: the generated tables are the ones the model was written   *)
+(*  for (statements repeated in Properties/C11.v)                          *)
+(* ---------------------------------------------------------------------- *)
+
+(* both `match` blocks are inverse of each other, arm by arm, and cover the five topologies *)
+Lemma source_topology_tables_inverse :
+  forallb (fun p => topology_eqb (num_to_topo (snd p)) (fst p)) topo_enc_table = true
+  /\ forallb (fun p => topo_to_num (snd p) =? fst p) topo_dec_table = true
+  /\ forallb (fun t => existsb (fun p => topology_eqb (fst p) t) topo_enc_table) all_topologies = true
+  /\ map fst topo_dec_table = [0; 1; 2; 3; 4].
+Proof. repeat split; reflexivity. Qed.
+
+(* the wire layout of MeshData *)
+Lemma source_layout :
+  meshdata_fields =
+  [(F_mesh_type, TInt 1);
+   (F_positions, TOpt (TSeq (TArr 3 (TInt 4)))); (F_normals, TOpt (TSeq (TArr 3 (TInt 4))));
+   (F_uvs0, TOpt (TSeq (TArr 2 (TInt 4)))); (F_uvs1, TOpt (TSeq (TArr 2 (TInt 4))));
+   (F_tangents, TOpt (TSeq (TArr 4 (TInt 4)))); (F_colors, TOpt (TSeq (TArr 4 (TInt 4))));
+   (F_joint_weights, TOpt (TSeq (TArr 4 (TInt 4)))); (F_joint_indices, TOpt (TSeq (TArr 4 (TInt 2))));
+   (F_indices32, TOpt (TSeq (TInt 4))); (F_indices16, TOpt (TSeq (TInt 2)));
+   (F_morph_targets, TOpt asset_id_ty); (F_morph_target_names, TOpt (TSeq TBytes))].
+Proof. reflexivity. Qed.
+
+(* each attribute is matched with the vertex format Bevy fixes for it, lands in a field whose
+   element type is that format, and that field is initialised from that attribute *)
+Lemma source_attribute_formats :
+  Forall (fun r => let '(f, a, k, w) := r in
+                   attr_shape a = (k, w)
+                   /\ assoc mfield_eqb f meshdata_fields = Some (TOpt (TSeq (TArr k (TInt w))))
+                   /\ field_source f = Some (SrcAttr a)) mesh_enc_shapes
+  /\ map (fun r => snd (fst (fst r))) mesh_enc_shapes
+     = [A_POSITION; A_TANGENT; A_NORMAL; A_UV_0; A_UV_1; A_COLOR; A_JOINT_WEIGHT; A_JOINT_INDEX].
+Proof. split; [repeat constructor|reflexivity]. Qed.
+
+(* `bin_to_mesh` writes every field to the part of the mesh `mesh_to_bin` read it from, and the
+   fallback mesh of a bincode failure is an empty TriangleList *)
+Lemma source_decode_writes_what_encode_read :
+  mesh_dec_targets = mesh_enc_sources
+  /\ map snd mesh_enc_sources
+     = [SrcTopology; SrcAttr A_POSITION; SrcAttr A_NORMAL; SrcAttr A_UV_0; SrcAttr A_UV_1;
+        SrcAttr A_TANGENT; SrcAttr A_COLOR; SrcAttr A_JOINT_WEIGHT; SrcAttr A_JOINT_INDEX;
+        SrcIndices32; SrcIndices16; SrcMorph; SrcNames]
+  /\ mesh_fallback_topology = TriangleList /\ topo_dec_default = TriangleList.
+Proof. repeat split; reflexivity. Qed.
+
+(* ---------------------------------------------------------------------- *)
 (*  Non-vacuity: a concrete mesh with every kind of content                *)
 (* ---------------------------------------------------------------------- *)
 
@@ -416,13 +394,16 @@ Definition ex_mesh : mesh :=
 
 Example ex_mesh_supported : supported ex_mesh.
 Proof.
-  split; [|discriminate]. repeat split.
+  split; [|discriminate]. split; [|split; [|split]].
   - intro a. destruct a; cbn; try exact I; (split; [reflexivity|]);
       repeat constructor.
-  - repeat constructor.
-  - repeat constructor.
-  - repeat constructor.
+  - cbn. repeat constructor.
+  - cbn. repeat constructor.
+  - cbn. repeat constructor.
 Qed.
+
+Example ex_mesh_nontrivial : supported ex_mesh /\ positions ex_mesh <> None.
+Proof. split; [exact ex_mesh_supported|discriminate]. Qed.
 
 Example ex_mesh_roundtrip :
   match mesh_to_bin ex_mesh with Some bs => bin_to_mesh bs | None => Stuck end = Ok ex_mesh.
